@@ -436,6 +436,9 @@ func cmdReplay(args []string) int {
 	}
 	ok, note := replayNative(m.Harness, m.Assertion, m.Inputs, nil)
 	fmt.Println("reproduced:", ok, strings.TrimSpace(note))
+	if r, _ := runReplay(m.Harness, m.Inputs); r != nil {
+		fmt.Printf("native run: failed=%v reached=%v notes=%v panic=%q\n", r.Failed, r.Reached, r.Notes, firstLine(r.Panic))
+	}
 	if ok {
 		return 1
 	}
